@@ -77,6 +77,13 @@ var c06HandCases = []string{
 	"9999-12-31\n    0:00 - ?\n",
 	"0000-01-01\n    <0:00 - ?\n",
 	"2020-01-03\n    #a=\"\xff\n",
+	// the ends of the representable calendar combined with day-shifted times (warnings look at adjacent days)
+	"9999-12-31\n    23:00 - 1:00>\n",
+	"9999-12-31\n    0:30> - ?\n    1h\n",
+	"9999-12-31 (8h!)\n    <23:00 - 24:00\n\n9999-12-30\n    22:00 - ?\n",
+	"0000-01-01\n    <23:00 - 1:00\n    <0:00 - ?\n",
+	"0000-01-01\n    1h\n\n0000-01-02\n    <1:00 - 0:00>\n",
+	"0000-12-31\n    23:59> - ?\n\n0001-01-01\n    <0:00 - 24:00\n",
 }
 
 func init() {
